@@ -22,6 +22,12 @@ fn main() {
             std::process::exit(props::c12::child_main(&a[2]));
         }
     }
+    {
+        let a: Vec<String> = std::env::args().collect();
+        if a.len() == 3 && a[1] == "__corpus" {
+            std::process::exit(props::corpus::write(&a[2]));
+        }
+    }
     world::sweep_stale_scratch();
     logcap::install();
     let args = match runner::parse_args() {
@@ -46,6 +52,7 @@ fn main() {
         "C12" => props::c12::main(&args),
         "C13" => props::c13::main(&args),
         "C14" => props::c14::main(&args),
+        "C15" => props::c15::main(&args),
         "C16" => props::c16::main(&args),
         "C20" => props::c20::main(&args),
         "C18" => props::c18::main(&args),
